@@ -15,21 +15,21 @@ type RefResult struct {
 	Optional []Exec
 	// OptionalNodes: tags of such nodes (graph nodes included; everything below them is optional too)
 	OptionalNodes []string
-	Steps int
+	Steps         int
 
 	// facts used to classify cases
-	FanInSameStep bool           // some node ran on >= 2 merged values
-	MaxNodeRuns   int            // max executions of one node of this graph level (cycle iterations)
-	BranchVaried  bool           // a branch took different decisions at two evaluations
-	GraphNodeRan  bool           // a graph node executed
-	Skipped       []string       // dag: nodes skipped (this level)
-	Ran           []string       // dag: nodes that ran (this level)
-	MixedPreds    bool           // dag: a node had both finished and skipped control predecessors
-	Ambiguous     bool           // outcome depends on step timing the statement does not fix
-	ExecsUncertain bool          // the run fails; which other nodes still ran is not fixed by the statement
-	NodeRuns      map[string]int // per node path
-	FaultTags     []string       // tags of fault-carrying lambdas that the model executed
-	CancelSeen    bool           // a lambda with Fault == cancel executed
+	FanInSameStep  bool           // some node ran on >= 2 merged values
+	MaxNodeRuns    int            // max executions of one node of this graph level (cycle iterations)
+	BranchVaried   bool           // a branch took different decisions at two evaluations
+	GraphNodeRan   bool           // a graph node executed
+	Skipped        []string       // dag: nodes skipped (this level)
+	Ran            []string       // dag: nodes that ran (this level)
+	MixedPreds     bool           // dag: a node had both finished and skipped control predecessors
+	Ambiguous      bool           // outcome depends on step timing the statement does not fix
+	ExecsUncertain bool           // the run fails; which other nodes still ran is not fixed by the statement
+	NodeRuns       map[string]int // per node path
+	FaultTags      []string       // tags of fault-carrying lambdas that the model executed
+	CancelSeen     bool           // a lambda with Fault == cancel executed
 }
 
 func (r *RefResult) absorb(sub *RefResult) {
